@@ -161,8 +161,8 @@ fn main() {
         });
 
         // (a') mods without a legacy bit next to legacy mods that occupy two bits: mode-less by value, by reference, and lazer
-        if cfg.dst == 3 {
-            let sets = ["HO", "IN", "NCHO", "PFHO", "DTHO", "NCIN", "NCPFHO", "SDHO", "HTIN", "NCPFIN", "MR", "NCMR", "4KHO", "NC7KIN"];
+        if cfg.dst == 3 || cfg.dst == 0 {
+            let sets: Vec<&str> = if cfg.dst == 3 { vec!["HO", "IN", "NCHO", "PFHO", "DTHO", "NCIN", "NCPFHO", "SDHO", "HTIN", "NCPFIN", "MR", "NCMR", "4KHO", "NC7KIN", "CL", "CLHD", "CLNC"] } else { vec!["CL", "CLHD", "CLHR", "CLNC", "CLPFDT", "MR", "MRHR", "TC", "CLTC"] };
             let name = format!("intermode-non-legacy/{}to{}", cfg.src, cfg.dst);
             ctx.universe(&name, (sets.len() * maps.len()) as u64, |idx, l: &mut Local<'_>| {
                 let (spec, map) = &maps[idx as usize % maps.len()];
@@ -179,7 +179,7 @@ fn main() {
                     l.violation("repr_intermode_ref_non_legacy", || format!("cfg={cfg:?} mods {acr}: GameModsIntermode by value vs by reference: {msg}\nspec={}\n--- .osu ---\n{}", spec.describe(), spec.text()));
                     return;
                 }
-                if let Some(lz) = im.try_with_mode(ModsMode::Mania) {
+                if let Some(lz) = im.try_with_mode(mods_mode(cfg.dst)) {
                     let lazer = run(GameMods::from(lz), &|d| d, map, cfg.dst);
                     l.checked(5);
                     if let Some(msg) = differ(&by_value, &lazer) {
